@@ -61,6 +61,13 @@ def run(chk, repo):
     chk.doc("R01.5", "sign-extension table (shared with C01): no zero or "
                      "negative shift amount is ever emitted")
     c01.r5_signext(chk, repo, Dsl(repo))
+    # every variable access stays inside the map value (the verifier
+    # checks offsets against value_size): the layout rules of C08
+    from . import c08
+    chk.doc("R08.2", "array-map slots (shared with C08)")
+    chk.doc("R08.3", "one slot per visible variable (shared with C08)")
+    c08.layout(chk, repo)
+    c08.dedup(chk, repo)
     sh.watermark_rules(chk, repo, "R05.7")
     sh.member_symmetry(chk, repo, "R05.8")
     sh.guard_strictness(chk, repo, "R05.9")
